@@ -694,7 +694,13 @@ def _worker(job):
                     r['npaths'] = len(paths)
                 out.extend(recs)
             except Unsupported as e:
-                out.append(rec('%s/%s.%s/supported' % (pid, mod, name), 'unsupported', '', (time.time() - t0) * 1000, fq, str(e)))
+                from pyvc.values import FrameViolation
+                if isinstance(e, FrameViolation):
+                    out.append(rec('%s/%s.%s/frame.pairing-tables-untouched' % (pid, mod, name), 'refuted', 'symbolic execution', (time.time() - t0) * 1000, fq,
+                                   str(e), viol={'request': {'kind': 'pairing_search', 'budget': 4000, 'depth': 4}, 'what': '%s: %s' % (name, e),
+                                                 'solver_output': str(e)}))
+                else:
+                    out.append(rec('%s/%s.%s/supported' % (pid, mod, name), 'unsupported', '', (time.time() - t0) * 1000, fq, str(e)))
             except Exception:
                 out.append(rec('%s/%s.%s/engine' % (pid, mod, name), 'engine-error', '', 0, fq,
                                traceback.format_exc()[-800:]))
